@@ -355,6 +355,67 @@ func CheckC09(e *Env) int {
 		b.P.Note = "distinct-params"
 		cases = append(cases, &RejectCase{P: b.P, Control: true, Cell: fmt.Sprintf("legal:distinct-params/arity=%d", arity)})
 	}
+	// one type under two spellings is one type: parameters (and selected struct fields) written
+	// rune / int32, byte / uint8, any / interface{} duplicate each other
+	{
+		fn := func(param, ret *Ty) *Ty { return &Ty{K: "func", Params: []*Ty{param}, Elem: ret} }
+		for si, sp := range []struct {
+			name string
+			a, b func(c *Ty) *Ty
+		}{
+			{"rune-int32", func(*Ty) *Ty { return Basic("rune") }, func(*Ty) *Ty { return Basic("int32") }},
+			{"slice-of-byte", func(*Ty) *Ty { return SliceOf(Basic("byte")) }, func(*Ty) *Ty { return SliceOf(Basic("uint8")) }},
+			{"any-empty-interface", func(*Ty) *Ty { return Basic("any") }, func(*Ty) *Ty { return &Ty{K: "iface"} }},
+			{"map-keyed-by-rune", func(c *Ty) *Ty { return MapOf(Basic("rune"), c) }, func(c *Ty) *Ty { return MapOf(Basic("int32"), c) }},
+			{"func-of-any", func(c *Ty) *Ty { return fn(Basic("any"), c) }, func(c *Ty) *Ty { return fn(&Ty{K: "iface"}, c) }},
+		} {
+			for _, where := range []string{"params", "params-reversed", "struct-star", "struct-named", "injector-params"} {
+				n++
+				b := NewPB(fmt.Sprintf("sg%04d", n), "app")
+				el := b.Carrier(0, "El")
+				ta, tb := sp.a(el), sp.b(el)
+				if where == "params-reversed" {
+					ta, tb = tb, ta
+				}
+				src := b.Func(0, "NewShared", ta, false, false)
+				src.Stub = true
+				u := b.Carrier(0, "User")
+				items := []*Item{src}
+				var params []Param
+				switch where {
+				case "params", "params-reversed":
+					f := b.Func(0, "NewUser", u, false, false, ta, tb)
+					f.Stub = true
+					items = append(items, f)
+				case "struct-star", "struct-named":
+					u = b.NamedOf(0, "Holder", StructOf(FieldT{Name: "A", Ty: ta}, FieldT{Name: "B", Ty: tb}), "none")
+					if where == "struct-star" {
+						items = append(items, b.Struct(u, true))
+					} else {
+						items = append(items, b.Struct(u, false, "A", "B"))
+					}
+				case "injector-params":
+					items = nil
+					params = []Param{{Name: "first", Ty: ta}, {Name: "second", Ty: tb}}
+					f := b.Func(0, "NewUser", u, false, false, ta)
+					f.Stub = true
+					items = append(items, f)
+				}
+				b.Inj("Init", u, false, false, params, refs(items...)...)
+				cell := fmt.Sprintf("dup-spelling/%s/%s", sp.name, where)
+				b.P.Note = cell
+				class := "dup-param"
+				if strings.HasPrefix(where, "struct") {
+					class = "dup-field"
+				}
+				if where == "injector-params" {
+					class = "conflict"
+				}
+				cases = append(cases, &RejectCase{P: b.P, Class: class, Cell: cell})
+				_ = si
+			}
+		}
+	}
 	{ // ...T next to []T
 		n++
 		b := NewPB(fmt.Sprintf("sg%04d", n), "app")
